@@ -22,11 +22,8 @@ pub fn get() -> FunctionDefinitions {
                                     map
                                 } else {
                                     let mut new_map = IndexMap::with_capacity(size);
-                                    for (k, v) in map {
+                                    for (k, v) in map.into_iter().take(size) {
                                         new_map.insert(k, v);
-                                        if new_map.len() == size {
-                                            break;
-                                        }
                                     }
                                     new_map
                                 };
@@ -37,21 +34,18 @@ pub fn get() -> FunctionDefinitions {
                                     vec
                                 } else {
                                     let mut new_vec = Vec::with_capacity(size);
-                                    for i in vec {
+                                    for i in vec.into_iter().take(size) {
                                         new_vec.push(i);
-                                        if new_vec.len() == size {
-                                            break;
-                                        }
                                     }
                                     new_vec
                                 };
                                 Some(vec.into())
                             }
                             Some(JsonValue::String(str)) => {
-                                let str = if size > str.len() {
+                                let str: String = if size > str.len() {
                                     str
                                 } else {
-                                    str[..size].into()
+                                    str.chars().take(size).collect()
                                 };
                                 Some(str.into())
                             }
